@@ -3,6 +3,7 @@ from harness import sets_common as sc
 
 PROP = "C06"
 THEOREM_FILE = "Props/C06.v"
+EXTRA_THEOREM_FILES = ["Props/C06_bulk.v", "Props/C06_add.v"]
 RULE = ("random operation histories (length <= 30) on four IPSet registers over 1-3 small arenas at both ends of both "
         "address spaces plus wide blocks (/0, top/bottom ranges, globs, ints): every constructor form, add, remove, "
         "update, clear, pop, compact, copy, pickle (protocols 0-5) and | & - ^; after every step the stored keys (in dict "
@@ -17,6 +18,6 @@ W_MUT = {"init": 3, "add": 8, "remove": 7, "update": 4, "clear": 0.5, "compact":
 
 
 def cases(rng, tier):
-    n = 2500 if tier == "quick" else 80000
+    n = 1500 if tier == "quick" else 60000
     for _ in range(n):
         yield ("sets_run", [sc.rand_history(rng, rng.randint(1, 30), W_MUT)], "history")
